@@ -182,7 +182,8 @@ def builder_docs():
     e.add_type_def(ext.TypeDef("U", "another", [tys.BoundedNatParam(5), tys.ListParam(tys.StringParam()),
                                                 tys.TupleParam([tys.BoundedNatParam(None)])],
                                ext.ExplicitBound(tys.TypeBound.Copyable)))
-    e.add_op_def(ext.OpDef("op", ext.OpDefSig(tys.FunctionType([B], [Q])), "descr", {"k": [1, "x"]}))
+    e.add_op_def(ext.OpDef("op", ext.OpDefSig(tys.FunctionType([B], [Q])), "descr", {"k": [1, "x"]},
+                           lower_funcs=[ext.FixedHugr(["prelude"], {"nodes": [], "note": "opaque to the schema"})]))
     e.add_op_def(ext.OpDef("bin", ext.OpDefSig(None, binary=True), "binary one"))
     out.append(("pkg", "Package", Package([m2.hugr], [e])))
     out.append(("pkg_empty", "Package", Package([], [])))
